@@ -9,7 +9,8 @@ import (
 )
 
 func DecodeBase64(raw []byte) ([]byte, error) {
-	ret := make([]byte, base64x.StdEncoding.DecodedLen(len(raw)))
+	/* the decoder accepts input without padding, DecodedLen rounds down: round up */
+	ret := make([]byte, (len(raw)+3)/4*3)
 	n, err := base64x.StdEncoding.Decode(ret, raw)
 	if err != nil {
 		return nil, err
